@@ -168,16 +168,25 @@ def run_case(case):
             sim.driver.dev_inst_map = dmap
             sim.protocol.dev_inst_map = dmap
 
+    shared_log = []
+
+    def shared_fn(d, c, r, e):
+        # ONE function object registered by several subscribers: every registration must be served separately
+        shared_log.append((cmd_fp(c), resp_fp(r), bool(e)))
+
     def call(sim, ev):
         k = ev["id"]
         if ev["op"] == "sub":
             if k in handles:
                 return
-            subs.setdefault(k, {"log": [], "spans": []})
+            subs.setdefault(k, {"log": [], "spans": [], "shared": bool(ev.get("shared"))})
             subs[k]["spans"].append([sim.loop.time(), None])
             if drv in sc.HID:
-                handles[k] = sim.driver.bus_traffic.register(
-                    lambda d, c, r, e, k=k: subs[k]["log"].append((sim.loop.time(), cmd_fp(c), resp_fp(r), bool(e))))
+                if subs[k]["shared"]:       # a subscriber keeps its kind when it re-subscribes
+                    handles[k] = sim.driver.bus_traffic.register(shared_fn)
+                else:
+                    handles[k] = sim.driver.bus_traffic.register(
+                        lambda d, c, r, e, k=k: subs[k]["log"].append((sim.loop.time(), cmd_fp(c), resp_fp(r), bool(e))))
             else:
                 handles[k] = sim.driver.new_dali_rx_queue()
         else:
@@ -214,7 +223,25 @@ def run_case(case):
         return out
     if drv == "tridonic":
         exp = ref_watch(tridonic_reports(obs["delivered"]), dmap)
-        return compare_callbacks(drv, exp, subs, obs)
+        own = {k: v for k, v in subs.items() if not v.get("shared")}
+        shared = {k: v for k, v in subs.items() if v.get("shared")}
+        out = compare_callbacks(drv, exp, own, obs)
+        if shared and not out:
+            import collections
+            want = collections.Counter()
+            clash = False
+            for k, sub in shared.items():
+                if _boundary_clash([t for (t, c, r, e) in exp], sub["spans"]):
+                    clash = True
+                for (t, c, r, e) in exp:
+                    if any(a < t and (b is None or t < b) for a, b in sub["spans"]):
+                        want[(c, r, e)] += 1
+            got = collections.Counter(shared_log)
+            if not clash and got != want:
+                diff = {str(k)[:120]: (got.get(k, 0), want.get(k, 0)) for k in set(got) | set(want) if got.get(k, 0) != want.get(k, 0)}
+                out.append(("C20:tridonic:shared-callback-registrations", "%d registrations of one callback function: (got, expected) "
+                            "deliveries differ for %r" % (len(shared), dict(list(diff.items())[:3]))))
+        return out
     if drv == "hasseb":
         exp = []
         for ci, (cspec, rec) in enumerate(zip(case["callers"], obs["callers"])):
@@ -403,6 +430,10 @@ def case_strategy(draw, driver=None):
     for k in range(nsub):
         t_in = draw(st.sampled_from([-0.01, -0.01, 0.07131, 0.41773, 0.93917]))
         events.append({"t": t_in, "what": "call", "op": "sub", "id": k})
+        if drv == "tridonic" and k >= 1 and draw(st.integers(0, 2)) == 0:
+            events[-1]["shared"] = True
+            if draw(st.booleans()):
+                events.append({"t": t_in, "what": "call", "op": "sub", "id": k + 10, "shared": True})
         if draw(st.integers(0, 2)) == 0:
             events.append({"t": round(max(t_in, 0) + draw(st.sampled_from([0.13771, 0.55133, 1.21777, 2.03911])), 5), "what": "call", "op": "unsub", "id": k})
             if draw(st.booleans()):
